@@ -1,5 +1,6 @@
 import Driver.ExitStack
 import Driver.GroupBy
+import Driver.Tools
 open Lean
 
 def dispatch (j : Json) : Except String Json := do
@@ -7,6 +8,7 @@ def dispatch (j : Json) : Except String Json := do
   match m with
   | "exitstack" => Drv.ExitStack.run j
   | "groupby" => Drv.GroupBy.run j
+  | "tool" => Drv.Tools.run j
   | _ => throw s!"unknown machine {m}"
 
 partial def loop (h : IO.FS.Stream) (out : IO.FS.Stream) : IO Unit := do
